@@ -81,7 +81,30 @@ type l2Case struct {
 // l2Directed: bulk sources of different lengths where the odd one contributes no column at
 // all (every member omitempty and zero), in both source orders and in the explicit form;
 // the same with equal lengths (accepted); a zero single value next to a bulk source.
+// OmitEmb reaches an omitempty member through a struct embedded by pointer (C04n: the
+// member behind a nil embedded pointer of a later bulk element counted as "empty").
+type OmitInner struct {
+	Note string `db:"note,omitempty"`
+}
+
+type OmitEmb struct {
+	ID int `db:"id"`
+	*OmitInner
+}
+
 var l2Directed = []l2Case{
+	{Q: "INSERT INTO t (*) VALUES ($OmitEmb.*)", Samples: []any{OmitEmb{}},
+		Args: []any{[]OmitEmb{{1, &OmitInner{"a"}}, {2, &OmitInner{"b"}}, {3, nil}}}},
+	{Q: "INSERT INTO t (*) VALUES ($OmitEmb.*)", Samples: []any{OmitEmb{}},
+		Args: []any{[]OmitEmb{{1, nil}, {2, &OmitInner{"b"}}}}},
+	{Q: "INSERT INTO t (*) VALUES ($OmitEmb.*)", Samples: []any{OmitEmb{}},
+		Args: []any{[]*OmitEmb{{1, &OmitInner{"a"}}, {2, nil}, {3, nil}}}},
+	{Q: "INSERT INTO t (*) VALUES ($OmitEmb.*)", Samples: []any{OmitEmb{}},
+		Args: []any{[]OmitEmb{{1, &OmitInner{"a"}}, {2, &OmitInner{""}}}}},
+	{Q: "INSERT INTO t (*) VALUES ($OmitEmb.*)", Samples: []any{OmitEmb{}},
+		Args: []any{OmitEmb{1, nil}}},
+	{Q: "INSERT INTO t (id, note) VALUES ($OmitEmb.*)", Samples: []any{OmitEmb{}},
+		Args: []any{[]OmitEmb{{1, &OmitInner{"a"}}, {2, nil}}}},
 	{Q: "INSERT INTO t (*) VALUES ($Person.*, $OmitAll.*)", Samples: []any{zoo.Person{}, zoo.OmitAll{}},
 		Args: []any{[]zoo.Person{{ID: 1, Name: "a"}, {ID: 2, Name: "b"}, {ID: 3, Name: "c"}}, []zoo.OmitAll{{}, {}}}},
 	{Q: "INSERT INTO t (*) VALUES ($OmitAll.*, $Person.*)", Samples: []any{zoo.Person{}, zoo.OmitAll{}},
